@@ -86,6 +86,9 @@ func wrapperKind(t types.Type) string {
 		return "error"
 	}
 	if b, ok := t.Underlying().(*types.Basic); ok {
+		if b.Info()&types.IsString != 0 {
+			return "mstr"
+		}
 		if b.Info()&types.IsInteger != 0 {
 			return "mint"
 		}
@@ -130,6 +133,8 @@ func (g *replayGen) compile(c CExpr) goExpr {
 		return goExpr{fmt.Sprintf("zzbi(%q)", c.V.String()), "int"}
 	case *CBool:
 		return goExpr{fmt.Sprint(c.V), "bool"}
+	case *CStr:
+		return goExpr{fmt.Sprintf("%q", c.V), "str"}
 	case *CIdent:
 		if c.Name == "nil" {
 			return goExpr{"nil", "nilptr"}
@@ -194,6 +199,8 @@ func (g *replayGen) compile(c CExpr) goExpr {
 					return goExpr{c.Name, "ptr"}
 				case "error":
 					return goExpr{c.Name, "err"}
+				case "mstr":
+					return goExpr{"string(" + c.Name + ")", "str"}
 				case "":
 					return g.fail("package-level %s of unsupported type %s", c.Name, t)
 				}
@@ -291,6 +298,9 @@ func (g *replayGen) compile(c CExpr) goExpr {
 				neg = "!"
 			}
 			if a.kind == "err" || b.kind == "err" {
+				return goExpr{neg + "(" + a.s + " == " + b.s + ")", "bool"}
+			}
+			if a.kind == "str" && b.kind == "str" {
 				return goExpr{neg + "(" + a.s + " == " + b.s + ")", "bool"}
 			}
 			isPtr := func(k string) bool { return k == "ptr" || k == "nilptr" }
